@@ -51,6 +51,9 @@ DGet(B, i, j) == IF InBand(B, i, j) THEN BGet(B, i, j) ELSE 0
 \* difference of banded operands whose geometries differ - their storages agree at most in aggregates)
 DenseLin(Z, X, Y, sg) == /\ WellFormedB(Z) /\ WellFormedB(X) /\ WellFormedB(Y) /\ Z.n = X.n /\ Y.n = X.n
                          /\ \A i, j \in 0..(X.n - 1) : DGet(Z, i, j) = DGet(X, i, j) + sg * DGet(Y, i, j)
+\* identical objects: geometry and the whole storage; dense twins that differ somewhere
+EqAll(X, Y) == SameKind(X, Y) /\ X.c = Y.c
+DenseDiff(X, Y) == X.n # Y.n \/ \E i, j \in 0..(X.n - 1) : DGet(X, i, j) # DGet(Y, i, j)
 \* operations; model results carry zero padding (never compared)
 Z2(i, c) == 0
 BNew(n, m1, m2, x) == MkB(n, m1, m2, LAMBDA i, j : x, Z2)
